@@ -391,5 +391,89 @@ func genC20(rng *hx.Rng, tier string, w *hx.Writer) error {
 		edCase(5, a, b, PtBytes(Ed.Point().Mul(Sc(Ed, a, EdL), B)), new(big.Int).Mul(a, b), "[a]([b]B)")
 		edCase(6, a, b, PtBytes(Ed.Point().Add(A, Ed.Point().Neg(B))), new(big.Int).Sub(a, b), "[a]B + (-[b]B)")
 	}
+	// point decoding against Models/EdCodec.v: valid encodings, the other sign of x, non-canonical
+	// ordinates (y + p), the points with x = 0 under both sign bits, ordinates that are on no point,
+	// random strings and wrong lengths; the judge takes the square root with math/big
+	edP := new(big.Int).Sub(new(big.Int).Lsh(big.NewInt(1), 255), big.NewInt(19))
+	edD := new(big.Int).Mul(big.NewInt(-121665), new(big.Int).ModInverse(big.NewInt(121666), edP))
+	edD.Mod(edD, edP)
+	le32 := func(v *big.Int) []byte {
+		be := make([]byte, 32)
+		v.FillBytes(be)
+		for i, j := 0, 31; i < j; i, j = i+1, j-1 {
+			be[i], be[j] = be[j], be[i]
+		}
+		return be
+	}
+	decCase := func(sb []byte, tag string) {
+		impl := unmarshalClass(Ed, sb)
+		oracle := "ok"
+		want := hx.E
+		if len(sb) == 32 {
+			be := make([]byte, 32)
+			for i := range sb {
+				be[31-i] = sb[i]
+			}
+			bit := be[0] >> 7
+			be[0] &= 0x7f
+			y := new(big.Int).Mod(new(big.Int).SetBytes(be), edP)
+			yy := new(big.Int).Mul(y, y)
+			u := new(big.Int).Mod(new(big.Int).Sub(yy, big.NewInt(1)), edP)
+			v := new(big.Int).Mod(new(big.Int).Add(new(big.Int).Mul(edD, yy), big.NewInt(1)), edP)
+			xx := new(big.Int).Mod(new(big.Int).Mul(u, new(big.Int).ModInverse(v, edP)), edP)
+			if x := new(big.Int).ModSqrt(xx, edP); x != nil {
+				if x.Bit(0) != uint(bit) {
+					x.Sub(edP, x).Mod(x, edP)
+				}
+				enc := le32(y)
+				enc[31] |= byte(x.Bit(0)) << 7
+				want = hx.B(enc)
+			}
+		}
+		switch {
+		case impl == hx.P:
+			oracle = hx.Fail("point-codec", "point decoding panicked ("+tag+"): "+hx.LastPanic)
+		case impl != want && want == hx.E:
+			oracle = hx.Fail("point-codec", "a byte string that is no point's encoding was decoded ("+tag+")")
+		case impl != want:
+			oracle = hx.Fail("point-codec", "a point's encoding was refused, or decoded to another point ("+tag+")")
+		}
+		w.Put(hx.Case{Entry: "edcodec", Op: 1, Args: hx.L(hx.B(sb)), Impl: impl, Oracle: oracle, Tags: []string{"ed-decode", tag, "nt"},
+			Re: func() string { return unmarshalClass(Ed, sb) }})
+	}
+	for i, a := range edScal {
+		enc := PtBytes(Pt(Ed, a, EdL))
+		decCase(enc, "valid")
+		o := append([]byte{}, enc...)
+		o[31] ^= 0x80
+		decCase(o, "other-sign")
+		if i < 12 {
+			f := append([]byte{}, enc...)
+			f[rng.Intn(31)] ^= 1 << uint(rng.Intn(8))
+			decCase(f, "bit-flip")
+		}
+	}
+	for _, yv := range []int64{0, 1, 2, 3, 4, 5, 18} {
+		y := big.NewInt(yv)
+		decCase(le32(y), "small-ordinate")
+		nc := le32(new(big.Int).Add(y, edP)) // the same ordinate, not reduced
+		decCase(nc, "non-canonical-ordinate")
+		nc2 := append([]byte{}, nc...)
+		nc2[31] |= 0x80
+		decCase(nc2, "non-canonical-ordinate")
+		neg := le32(new(big.Int).Sub(edP, y))
+		decCase(neg, "top-ordinate")
+		neg[31] |= 0x80
+		decCase(neg, "top-ordinate")
+		sb := le32(y)
+		sb[31] |= 0x80
+		decCase(sb, "small-ordinate")
+	}
+	for i := 0; i < ne; i++ {
+		decCase(rng.Bytes(32), "random")
+	}
+	for _, l := range []int{0, 1, 31, 33, 64} {
+		decCase(rng.Bytes(l), "length")
+	}
 	return nil
 }
